@@ -14,6 +14,7 @@ Per-key merge is `max` under a total order (hence commutative, associative, idem
  (e) merge_state calls repl_merge_valueset as newer.repl_merge_valueset(older) in both (Some, Some) rows (table evaluated as in C08).
 Not decided: fields other than the state on a tie, the trim step, behaviour over actual merge sequences.
 """
+import re
 from .lib.hir import *
 from .lib import pathcond as pc
 from .lib.x_prov import Prov, tails, pat_binds, find_loop, loop_parts
@@ -53,6 +54,7 @@ def run(ctx):
               f"ValueSetSession and ValueSetOauth2Session merge differently: {a} vs {b} — user sessions and OAuth2 sessions of one login would diverge on revocation")
     audit(ctx)
     direction(ctx)
+    trim_rules(ctx)
 
 
 # ---------------------------------------------------------------------------
@@ -346,3 +348,49 @@ def direction(ctx):
                   f"when the {nm[W]} side holds the newer change, merge_state does not call exactly {nm[W]}.repl_merge_valueset({nm[O]}): the merge bodies treat `self` as newer, "
                   "so a swapped or missing call loses the older side's revocations", file=fn["file"], line=arm["body"].get("line"))
     ctx.floor(R, "both-present rows", n, 2)
+
+
+# ---------------------------------------------------------------------------
+# trim: a RevokedAt record is the tombstone that lets a revocation win every merge. It may be dropped only once it is older
+# than the changelog window (cid < trim_cid), and any forced size trim must choose its victims by data that is identical on
+# every replica (issuance time), never by the session state, which differs between replicas until they converge.
+# (added after seeded change C11: the force-trim index key became (live, issued_at), discarding revocations first)
+
+def trim_rules(ctx):
+    R = "K4-trim-keeps-revocations"
+    F = ctx.facts
+    names = F.find_fns(LIB, r"^kanidmd_lib::<valueset::session::ValueSet(Session|Oauth2Session|ApiToken) as valueset::ValueSetT>::trim$")
+    ctx.floor(R, "session value-set trim functions", len(names), 2)
+    for name in sorted(names):
+        f = ctx.fn(LIB, name)
+        ty = re.search(r"(ValueSet\w+) as", name).group(1)
+        retains = [c for c in all_calls(f["body"]) if c.get("e") == "mcall" and c.get("name") == "retain"]
+        if not ctx.check(len(retains) >= 1, R, name, f"{ty}:window-trim-found", "retain(..) over the session map",
+                         f"{ty}::trim has no retain pass (shape not understood)", file=f["file"], line=f["line"]):
+            continue
+        first = retains[0]
+        clos = [unwrap(a) for a in first["args"] if unwrap(a).get("e") == "closure"]
+        inside = set()
+        if clos:
+            inside = {id(n) for n in walk(clos[0])}
+            # every `false` (drop) outcome of the window trim is under RevokedAt(cid) with cid < trim_cid
+            binds = pc.collect_binds(clos[0]["body"])
+            drops = pc.site_conditions(clos[0]["body"], lambda n: n.get("e") == "lit" and n.get("lk") == "bool" and n.get("v") == "false")
+            okd = bool(drops)
+            for (site, conds) in drops:
+                lits = pc.implied(conds, binds)
+                rev = pc.arm_lit(lits, "SessionState::RevokedAt") is not None or pc.lit_has(lits, True, "def", "SessionState::RevokedAt")
+                lt = any(p and leaf[1] == "expr" and unwrap(leaf[2]).get("e") == "bin" and unwrap(leaf[2]).get("op") == "<" for (p, leaf) in lits.values())
+                okd = okd and rev and lt
+            ctx.check(okd, R, name, f"{ty}:drops-only-expired-revocations", "window trim drops only RevokedAt(cid) with cid < trim_cid",
+                      f"{ty}::trim's retain pass can drop a session that is not a revocation older than the trim point: a revocation inside the changelog "
+                      "window (or a live session) disappears on this replica and a stale live copy elsewhere wins the next merge",
+                      file=f["file"], line=first.get("line"))
+        # outside the window trim nothing may look at the session state
+        bad = [n for n in walk(f["body"]) if id(n) not in inside and not n.get("exp")
+               and ((n.get("e") == "field" and n.get("f") == "state") or ("SessionState::" in (def_of(n) or "")))]
+        ctx.check(not bad, R, name, f"{ty}:forced-trim-ignores-state", "the size trim orders by issuance only",
+                  f"{ty}::trim consults the session state outside the changelog-window pass (line {bad[0].get('line') if bad else '?'}): a forced size trim that "
+                  "prefers revoked sessions discards revocation records inside the replication window, and — since state differs between replicas "
+                  "until they converge — replicas trim different sessions; the revocation is lost and the session becomes usable again",
+                  file=f["file"], line=bad[0].get("line") if bad else None)
